@@ -34,10 +34,11 @@ CLAIMED = {
     technique='Coq proof (refinement to list spec, induction over programs) + vm_compute correspondence', design='§5 C03'),
  'C07': dict(
     text=('Coq model of BitStore.find/rfind/findall_msb0 (byte fast path and general path), Bits.find/rfind/findall/__contains__/cut/split/startswith/endswith/count and BitArray._replace. '
-          'Proved so far: the general path equals the brute-force filter, find is its head, empty patterns are rejected by find/findall/split, count totals. '
-          'The byte fast path equivalence is stated in DESIGN and carried by correspondence + the quadratic-scan oracle for now (partial).'),
-    note='PARTIAL proof: fast_path_eq_general, split/replace loop invariants not yet proved; they rest on differential correspondence (700 quick / 12000+ thorough cases incl. >8192-bit data) and the brute-force oracle. Trusted: Prims.search_all as the model of bitarray.search/find, Search.bytes_find as bytes.find.',
-    technique='Coq proof (partial) + vm_compute correspondence + brute-force oracle', design='§5 C07'),
+          'Proved for all data, patterns, windows, counts and both alignments (msb0): the general path AND the byte fast path (bytes.find over tobytes() of the byte window, overlapping matches included) '
+          'equal the brute-force filter; findall = its first `count` elements, find = its head, rfind = its last element, `in` = non-emptiness, every reported position is an occurrence inside the window '
+          'and every occurrence is reported; empty patterns are rejected by find/findall/split; count totals.'),
+    note='PARTIAL in two places: split/replace loop invariants (non-overlapping selection) and the lsb0 variants rest on differential correspondence (860 quick / 15000+ thorough cases incl. >8192-bit data, overlapping self-similar patterns) and the brute-force oracle. Trusted: Prims.search_all as the model of bitarray.search/find, Search.bytes_find as bytes.find.',
+    technique='Coq proof (msb0 search complete; split/replace partial) + vm_compute correspondence + brute-force oracle', design='§5 C07'),
  'C12': dict(
     text=('Coq theorems: lsb0 indexing is msb0 indexing of the reversed bits for every index; lsb0 slicing with any start/stop and any positive step is the reversed msb0 slice of the reversed bits '
           '(the repo\'s own hypothesis test states this law for lengths <= 9; here it is proved for all lengths). Every other positional operation (negative steps, assignment, deletion, set, invert, '
@@ -64,10 +65,13 @@ CLAIMED = {
     note='Trusted: hash() of a tuple is a function of the tuple; run-time wrapping of hash in the harness process (no source hook).',
     technique='Coq proof + vm_compute correspondence of the captured hash input', design='§5 C13'),
  'C17': dict(
-    text=('Coq theorems: the bytes=/file window equals the selected sub-list exactly when 0<=offset, 0<=length, offset+length<=size and is rejected otherwise; the bytes property refuses non-whole-byte lengths; the tofile chunk constant (read from the source each run) is a positive multiple of 8. '
-          'The window models of bytes=, BytesIO (byte-offset arithmetic), bitarray= and filename=/file handle are evaluated against the implementation for all windows over 0-3-byte sources; tobytes/bytes()/.bytes/tofile (BytesIO and real file), chunked writing and Array tobytes/tofile/fromfile are oracle-checked. Thorough writes 100 MiB + 13 bits into a hashing sink.'),
-    note='PARTIAL proof: tofile_eq_tobytes for all chunk sizes is not yet proved (exercised by cut(n)+tobytes cases and the 100 MiB run). Trusted: a file is its bytes; an empty file cannot be memory-mapped (excluded).',
-    technique='Coq proof (window arithmetic) + vm_compute correspondence + oracle', design='§5 C17'),
+    text=('Coq theorems: the bytes=/file window equals the selected sub-list exactly when 0<=offset, 0<=length, offset+length<=size and is rejected otherwise; the bytes property refuses non-whole-byte lengths; '
+          'tofile = tobytes for EVERY chunk size that is a positive multiple of 8 and every length (so also at exact multiples of the chunk size), instantiated at the chunk constant read from the source each run; '
+          'tobytes(a ++ b) = tobytes(a) ++ tobytes(b) for whole-byte a. '
+          'The window models of bytes=, BytesIO (byte-offset arithmetic), bitarray= and filename=/file handle are evaluated against the implementation for all windows over 0-3-byte sources; tobytes/bytes()/.bytes/tofile (BytesIO and real file) '
+          'and Array tobytes/tofile/fromfile are oracle-checked; tofile itself is additionally run with its chunk literal swapped for 8/16/64 (code object re-instantiated) at lengths below, at and above multiples of the chunk. Thorough writes 100 MiB + 13 bits into a hashing sink.'),
+    note='Proof complete for the modelled functions. Trusted: a file is its bytes; an empty file cannot be memory-mapped (excluded); Search.bs_cut as the model of Bits.cut (tied by correspondence).',
+    technique='Coq proof + vm_compute correspondence + oracle', design='§5 C17'),
  'C04': dict(
     text=('Coq heap model (objects -> stores with the advisory immutable flag, string cache with arbitrary eviction) whose transitions are the store-flow of every derivation route as read from the code. '
           'Proved: the invariant "a mutable object\'s store is unflagged, in no cache entry and referenced by no other object" holds initially and is preserved by every transition, hence over all histories; '
